@@ -4,3 +4,14 @@ UNITS = [
        loops="mapping0.loops", harness="h_map0_unpack.c", entry="h_map0_unpack", reach=3, leak=True, timeout=900, shards=8,
        note="mapping setup (Vorbis I 4.2.4): 1..16 submaps, <= 256 coupling steps each naming two different existing channels, every channel routed to an existing submap, every submap naming an existing floor and residue; exact bit layout; nothing leaked on reject"),
 ]
+UNITS += [
+  Unit("map0_inverse", ["C02", "C01", "C11", "C18"], "lib/mapping0.c", enforce="mapping0_inverse", loops="mapping0_inv.loops",
+       harness="h_map0_inverse.c", entry="h_map0_inverse",
+       unwindset=["h_map0_inverse.0:3", "h_map0_inverse.1:65", "h_map0_inverse.2:3", "h_map0_inverse.3:17", "h_map0_inverse.4:257",
+                  "mapping0_inverse.0:3", "mapping0_inverse.2:3", "mapping0_inverse.6:3", "mapping0_inverse.7:3", "verif_res_inverse.0:3"],
+       reach=2, timeout=1200, shards=8, objbits=9,
+       assumed=["memset modelled as: bytes arbitrary, exact (0.0f) at the ghost index (contracts/mapping0_inv.spec.h)", "channels <= 2 (with two channels every coupling step couples channels 0 and 1); block sizes, submaps (1..16), coupling steps (0..256), floor/residue tables symbolic",
+                "floor inverse1/inverse2, residue inverse and mdct_backward are body-ful stubs behind the dispatch tables that CHECK their arguments and call order and havoc the vectors; the tables' slots are assumed to hold the real back ends",
+                "alloca requests checked against the stack budget (contracts/common.h)"],
+       note="mapping decode: floor curves, then residue, then inverse coupling, then curve synthesis, then the inverse transform, each exactly once per channel/submap with its own vector; EVERY residue vector is zero when residue decode starts (ghost index; unused channels included); do-not-decode flags equal 'unused after coupling propagation in both directions'; bundles hold exactly the submap's channels; all table indices in bounds"),
+]
